@@ -2,10 +2,10 @@ SPECIFICATION Spec
 CONSTANTS
   GMinT = 4
   J = 1
-  Bug = "none"
-  Emit = TRUE
+  Bug = "OneGrace"
+  Emit = FALSE
   Scenarios <- MCScenarios
-  Ds = {12, 20, 32, 48, 80, 120, 200, 320}
+  Ds = {12, 20, 32, 80, 120}
   XStep = 4
   Near = 4
   Fgs = {TRUE}
